@@ -57,6 +57,7 @@ type Layout struct {
 	Args       []ArgCfg          `json:"args,omitempty"`
 	Requires   map[string]string `json:"requires,omitempty"` // "Type.field" → selection
 	KeyScalars []string          `json:"key_scalars"`        // "Type.field"
+	SameN      []string          `json:"same_n,omitempty"`   // "Type.field": value object numbered like its parent (nested key)
 	Features   []string          `json:"features,omitempty"` // generator classes present
 }
 
@@ -86,8 +87,23 @@ type objType struct {
 	skuSubs  []int // subgraphs that also declare @key(fields:"sku")
 	// keyVariant[s]: how subgraph s declares the second key (0 first, 1 unresolvable, 2 both)
 	keyVariant map[int]int
+	// nested: a third key through a value object, '@key(fields: "info { kid }")'
+	nested *nestedKey
 	keyOnly  bool
 	fieldSet map[string]*field
+}
+
+// nestedKey describes the value object behind a nested entity key: kid is the key scalar
+// (every subgraph of subs declares it), the extras are owned by one subgraph of subs each.
+type nestedKey struct {
+	typ    string
+	subs   []int
+	extras []nestedExtra
+}
+
+type nestedExtra struct {
+	name, typ string
+	owner     int
 }
 
 type model struct {
@@ -351,6 +367,30 @@ func Gen(t *rapid.T, o Options) *Layout {
 			}
 			m.feat["second-key"] = true
 		}
+		// nested key: 'info { kid }' declared by two or more subgraphs, the other fields of the
+		// value object are split between them
+		if m.nsub >= 2 && !o.Exclude["nested-key"] && rapid.IntRange(0, 4).Draw(t, "nestedkey") == 0 {
+			nk := &nestedKey{typ: "K" + ot.name}
+			for s := 0; s < m.nsub; s++ {
+				if rapid.Bool().Draw(t, "nksub") {
+					nk.subs = append(nk.subs, s)
+				}
+			}
+			for s := 0; len(nk.subs) < 2; s++ {
+				if !has(nk.subs, s) {
+					nk.subs = append(nk.subs, s)
+				}
+			}
+			sort.Ints(nk.subs)
+			for _, ex := range []nestedExtra{{name: "kname", typ: "String"}, {name: "kx", typ: "Int"}} {
+				if rapid.IntRange(0, 3).Draw(t, "nkextra") > 0 {
+					ex.owner = nk.subs[rapid.IntRange(0, len(nk.subs)-1).Draw(t, "nkowner")]
+					nk.extras = append(nk.extras, ex)
+				}
+			}
+			ot.nested = nk
+			m.feat["nested-key"] = true
+		}
 		m.objs = append(m.objs, ot)
 	}
 	// value types: scalars and entity references, replicated wherever returned
@@ -571,6 +611,11 @@ func (m *model) build() *Layout {
 				sb.WriteString(" sku: ID!")
 				l.KeyScalars = append(l.KeyScalars, o.name+".sku")
 			}
+			if o.nested != nil {
+				fmt.Fprintf(&sb, " info: %s!", o.nested.typ)
+				l.KeyScalars = append(l.KeyScalars, o.nested.typ+".kid")
+				l.SameN = append(l.SameN, o.name+".info")
+			}
 		}
 		for _, f := range o.fields {
 			fmt.Fprintf(&sb, " %s%s: %s", f.name, f.args, f.typ)
@@ -579,6 +624,13 @@ func (m *model) build() *Layout {
 			}
 		}
 		sb.WriteString(" }\n")
+		if o.nested != nil {
+			fmt.Fprintf(&sb, "type %s { kid: ID!", o.nested.typ)
+			for _, ex := range o.nested.extras {
+				fmt.Fprintf(&sb, " %s: %s", ex.name, ex.typ)
+			}
+			sb.WriteString(" }\n")
+		}
 		for _, f := range o.fields {
 			if len(f.argNames) > 0 {
 				l.Args = append(l.Args, ArgCfg{TypeName: o.name, FieldName: f.name, Args: f.argNames})
@@ -665,6 +717,9 @@ func (m *model) build() *Layout {
 				}
 			}
 			if has(o.skuSubs, s) {
+				visit(o.name)
+			}
+			if o.nested != nil && has(o.nested.subs, s) {
 				visit(o.name)
 			}
 		}
@@ -792,7 +847,8 @@ func (m *model) build() *Layout {
 				}
 			}
 			sku := has(o.skuSubs, s)
-			resolvable := len(own) > 0 || sku
+			nestedHere := o.nested != nil && has(o.nested.subs, s)
+			resolvable := len(own) > 0 || sku || nestedHere
 			keyDir := `@key(fields: "id")`
 			if !resolvable {
 				keyDir = `@key(fields: "id", resolvable: false)`
@@ -823,11 +879,18 @@ func (m *model) build() *Layout {
 					keyDir += " " + skuDir
 				}
 			}
+			if nestedHere {
+				keyDir += ` @key(fields: "info { kid }")`
+			}
 			fmt.Fprintf(&sdl, "type %s%s %s { id: ID!", o.name, impl, keyDir)
 			tf := TypeField{TypeName: o.name, FieldNames: []string{"id"}}
 			if sku {
 				sdl.WriteString(" sku: ID!")
 				tf.FieldNames = append(tf.FieldNames, "sku")
+			}
+			if nestedHere {
+				fmt.Fprintf(&sdl, " info: %s! @shareable", o.nested.typ)
+				tf.FieldNames = append(tf.FieldNames, "info")
 			}
 			for _, f := range own {
 				delete(external[o.name], f.name)
@@ -857,6 +920,19 @@ func (m *model) build() *Layout {
 			}
 			sdl.WriteString(" }\n")
 			md.RootNodes = append(md.RootNodes, tf)
+			if nestedHere {
+				fmt.Fprintf(&sdl, "type %s { kid: ID! @shareable", o.nested.typ)
+				ktf := TypeField{TypeName: o.nested.typ, FieldNames: []string{"kid"}}
+				for _, ex := range o.nested.extras {
+					if ex.owner == s {
+						fmt.Fprintf(&sdl, " %s: %s", ex.name, ex.typ)
+						ktf.FieldNames = append(ktf.FieldNames, ex.name)
+					}
+				}
+				sdl.WriteString(" }\n")
+				md.ChildNodes = append(md.ChildNodes, ktf)
+				md.Keys = append(md.Keys, FedCfg{TypeName: o.name, SelectionSet: "info { kid }"})
+			}
 			idKey := FedCfg{TypeName: o.name, SelectionSet: "id", DisableEntityResolver: !resolvable}
 			skuKey := FedCfg{TypeName: o.name, SelectionSet: "sku", DisableEntityResolver: !skuResolvable}
 			switch {
